@@ -30,11 +30,18 @@ import translate  # noqa: E402
 
 # which Lean property files carry the theorems of each property
 PROPERTY_FILES = {
-    "C01": ["C01", "SrcLin"], "C02": ["C02", "SrcHll"], "C03": ["C03", "SrcHH"], "C04": ["C04", "SrcHH"], "C05": ["C05", "C05Log", "SrcLin"],
-    "C06": ["C06", "C06Unbias", "C09Link", "SrcRand"], "C07": ["C07"], "C08": ["C08", "C08Compose"], "C09": ["C09", "C09Link", "SrcLin"], "C10": ["C10"],
-    "C11": ["C11"], "C12": ["C12"], "C13": ["C13", "SrcHH"], "C14": ["C14"], "C15": ["C15"], "C16": ["C16"],
-    "C17": ["C17"], "C18": ["C18", "C09Link", "SrcLin"], "C19": ["C19", "SrcPar"], "C20": ["C20"],
+    "C01": ["C01", "SrcLin", "FullLin"], "C02": ["C02", "SrcHll", "FullHll"], "C03": ["C03", "SrcHH", "FullHH"], "C04": ["C04", "SrcHH", "FullHH"],
+    "C05": ["C05", "C05Log", "SrcLin", "FullLin", "FullLog"],
+    "C06": ["C06", "C06Unbias", "C09Link", "SrcRand", "FullLog"], "C07": ["C07"], "C08": ["C08", "C08Compose"], "C09": ["C09", "C09Link", "SrcLin", "FullLin"],
+    "C10": ["C10", "SrcSchema"],
+    "C11": ["C11"], "C12": ["C12", "FullLin", "FullLog", "FullHll", "FullHH"], "C13": ["C13", "SrcHH", "FullHH"], "C14": ["C14"], "C15": ["C15"], "C16": ["C16", "SrcSchema"],
+    "C17": ["C17"], "C18": ["C18", "C09Link", "SrcLin", "FullLin"], "C19": ["C19", "SrcPar"], "C20": ["C20", "SrcSchema"],
 }
+
+
+# which properties a translation failure of a section of hashes.py breaks (the other properties take the hash as a parameter:
+# their slices observe the columns through a probe sketch)
+SECTION_PROPERTIES = {"murmur3": ("C11",), "fasthash": ("C11", "C14", "C02", "C07", "C08", "C12")}
 
 
 class Timeout(Exception):
@@ -147,6 +154,10 @@ def lean_check(pid, quick=True):
             st.generated_changed = r["changed"]
             st.fingerprints = r["fingerprints"]
             st.kernel_errors = r.get("kernel_errors", [])
+            # a section of hashes.py that can no longer be translated breaks the properties that rest on that hash only
+            for sec, msg in r.get("section_errors", {}).items():
+                if pid in SECTION_PROPERTIES.get(sec, ()):
+                    st.translate_error = ((st.translate_error + "; ") if st.translate_error else "") + f"hashes.py section {sec}: {msg}"
             try:
                 base = json.load(open(os.path.join(VERIF, "harness", "fingerprints.json")))
                 st.drifted = sorted(k for k in set(base) | set(st.fingerprints) if base.get(k) != st.fingerprints.get(k))
